@@ -63,12 +63,51 @@ def generate(ctx, rng):
         filler = {"msg_type": rng.randbytes(2), "magic": rng.randbytes(2), "msg_id": rng.randbytes(4),
                   "timestamp": rng.randbytes(8), "reserved": rng.randbytes(12)}
         yield ("dec-r", j), {"kind": "dec", "frame": frame, "id": did, "filler": filler}
+    for j in range(4 if ctx.tier == "quick" else 60):
+        yield ("wire-session", j), {"kind": "wire-session", "frame": b"", "id": rng.choice(BOUNDARY_IDS), "n": 300, "sseed": rng.getrandbits(32),
+                                    "epoch": _rand_epoch(rng)}
     for j in range(n_wire):
         L = j % 256 if j < 256 else rng.randint(0, 255)
         nresp = rng.choice([1, 1, 2, 3])
         yield ("wire", j), {"kind": "wire", "frame": rng.randbytes(L), "id": rng.choice(BOUNDARY_IDS + [rng.getrandbits(64)]),
                             "responses": [rng.randbytes(rng.randint(0, 255)) for _ in range(nresp)],
                             "epoch": _rand_epoch(rng), "drop_first": [0, 0, 0, 1, 2][j % 5]}
+
+
+def _wire_session(ctx, case):
+    """Many frames through ONE LAN object / connection: every packet on the wire must parse to its frame and id."""
+    import random
+    r = random.Random(case["sseed"])
+    did = case["id"]
+    net = H.new_net()
+    dev = SimDevice(net, version=2, device_id=did & (2 ** 64 - 1))
+    seen = []
+    dev.on_exchange = lambda conn, req, packets, meta: (seen.append((req, meta["v2"]["device_id"])) or [(0, v2.build(req[::-1], did))])
+    frames = [r.randbytes(r.choice([0, 1, 15, 16, 17, 31, 32, 33, 47, 48, 64, 100, 255])) for _ in range(case["n"])]
+    got_all = []
+
+    async def go(loop):
+        import asyncio
+        lan = LAN(dev.host, dev.port, did)
+        for i, f in enumerate(frames):
+            got_all.append(await lan.send(f))
+            if i % 50 == 49:
+                await asyncio.sleep(r.choice([0.5, 3600, 86400 * 30]))
+
+    try:
+        H.run_virtual(go, net, epoch=_epoch(tuple(case["epoch"])))
+    except Exception as e:  # noqa: BLE001
+        ctx.count(("wire-session", case["sseed"]), kind="wire-session-raised")
+        ctx.violation("wire-raises", f"send {len(got_all)} of a long V2 session raised {type(e).__name__}: {e}", case)
+        return
+    for i, f in enumerate(frames):
+        ctx.count(("wire-session", case["sseed"], i), kind="wire-session-send")
+        if i >= len(seen) or seen[i] != (f, did):
+            ctx.violation("wire-request-mismatch", f"send {i} of a session decodes to a different frame/id on the device", case)
+            break
+        if [bytes(x) for x in got_all[i]] != [f[::-1]]:
+            ctx.violation("wire-response-mismatch", f"send {i} of a session returned different frames than the device sent", case)
+            break
 
 
 def _epoch(ep):
@@ -112,6 +151,8 @@ def run_case(ctx, case):
         if bytes(got) != frame:
             ctx.violation("decode-frame-mismatch", "decoded frame differs from the one packed", case,
                           {"packet": pkt, "got": bytes(got)})
+    elif kind == "wire-session":
+        _wire_session(ctx, case)
     else:
         _wire(ctx, case, frame, did)
 
